@@ -180,6 +180,22 @@ def explore(pool, modname, specname, params, max_depth, undedup_depth, prop_labe
     return cov, acc
 
 
+def hidden_state(obj, known=()):
+    """Instance attributes beyond the ones a spec describes itself (caches, flags, memoised values), as a sorted list of
+    (name, repr). Including them in a canonical form only makes it finer: two states are merged only if the hidden
+    attributes agree as well, so a stale cache cannot hide behind an equal visible state."""
+    out = []
+    for k, v in sorted(getattr(obj, "__dict__", {}).items()):
+        if k in known:
+            continue
+        try:
+            r = repr(v)
+        except Exception:
+            r = "<unprintable>"
+        out.append([k, r[:300]])
+    return out
+
+
 def replay_case(case):
     """Re-run one recorded history, checking every step; returns list of (sig, detail)."""
     spec = get_spec(case["spec_mod"], case["spec"], case.get("params"))
